@@ -17,66 +17,46 @@ theorem binLoop_stop (ops : Tk → Option BinOp) (next : List Tok → R) (n : Na
 
 def eofTok : Tok := { k := .eof }
 
-/-- ROUND TRIP (operators): for every expression tree of the ES5 grammar built from literals, identifiers, `this` and ALL
-    binary (24), unary (9), postfix (2), conditional, assignment (13) and comma operators — at any depth, in any
-    combination — that is outside the deviation region `relational_chain`, the transcription of otto's parser applied to
-    the token string the grammar derives for the tree (minimal parentheses) returns exactly that tree and stops at EOF.
-    This IS operator precedence and associativity for every operator pair.
-    Full statement (member access, calls and `new` included) = `parse_print`, below, when present. -/
-theorem parse_print_partial (e : E) (hw : wf e = true) (hr : relChain e = false) (hn : noLHS e = true) :
-    ∃ n0, ∀ n, n0 ≤ n → parseExpression n true (print e ++ [eofTok]) = some (e, [eofTok]) := by
-  have rt := (main1 e hw hr hn).1 0 (by omega) (by omega) [eofTok] (show stopB 0 .eof false = true by decide)
-  simpa [Ev, parseAt_0, pr_bare (Nat.zero_le 15) (Nat.zero_le _), print] using rt
-
-/-- The same at every grammar position `lvl` and followed by ANY token string `rest` whose first token no level ≥ lvl
-    reacts to (e.g. `)`, `]`, `:`, `;`, EOF): the parser returns the tree and leaves `rest` untouched.  With `lvl > prec e`
-    the derivation contains the parentheses the grammar forces, so this is also "parenthesised sub-expressions are
-    transparent". -/
-theorem parse_print_at (e : E) (hw : wf e = true) (hr : relChain e = false) (hn : noLHS e = true)
-    (lvl : Nat) (h15 : lvl ≤ 15) (h2 : lvl ≠ 2) (rest : List Tok) (hs : stop lvl rest) :
-    ∃ n0, ∀ n, n0 ≤ n → parseAt lvl n (pr lvl true e ++ rest) = some (e, rest) :=
-  (main1 e hw hr hn).1 lvl h15 h2 rest hs
-
-/-- ROUND TRIP (full ES5 §11 expression grammar): as `parse_print_partial`, now including member access (`.name`, `[e]`),
+/-- ROUND TRIP (full ES5 §11 expression grammar): for every expression tree of the ES5 grammar built from literals, identifiers, `this`, ALL binary (24), unary (9),
+    postfix (2), conditional, assignment (13) and comma operators, member access (`.name`, `[e]`),
     calls with argument lists, and `new` with and without arguments in every chaining the grammar allows
-    (MemberExpression / NewExpression / CallExpression, §11.2).  The only hypotheses: the tree is a well-formed expression
-    tree and lies outside the deviation region `relational_chain`. -/
-theorem parse_print (e : E) (hw : wf e = true) (he : isExprHead e = true) (hr : relChain e = false) :
+    (MemberExpression / NewExpression / CallExpression, §11.2).  The only hypothesis: the tree is a well-formed expression tree.
+    In particular the relational operators are left-associative: `a < b < c` round-trips as `(a < b) < c`. -/
+theorem parse_print (e : E) (hw : wf e = true) (he : isExprHead e = true) :
     ∃ n0, ∀ n, n0 ≤ n → parseExpression n true (print e ++ [eofTok]) = some (e, [eofTok]) := by
-  have rt := ((main2 e hw hr).1 he).1 0 (by omega) (by omega) [eofTok] (show stopB 0 .eof false = true by decide)
+  have rt := ((main2 e hw).1 he).1 0 (by omega) (by omega) [eofTok] (show stopB 0 .eof false = true by decide)
   simpa [Ev, parseAt_0, pr_bare (Nat.zero_le 15) (Nat.zero_le _), print] using rt
 
 /-- … at every grammar position and in front of any admissible rest (cf. `parse_print_at`). -/
-theorem parse_print_at_full (e : E) (hw : wf e = true) (he : isExprHead e = true) (hr : relChain e = false)
+theorem parse_print_at_full (e : E) (hw : wf e = true) (he : isExprHead e = true)
     (lvl : Nat) (h15 : lvl ≤ 15) (h2 : lvl ≠ 2) (rest : List Tok) (hs : stop lvl rest) :
     ∃ n0, ∀ n, n0 ≤ n → parseAt lvl n (pr lvl true e ++ rest) = some (e, rest) :=
-  ((main2 e hw hr).1 he).1 lvl h15 h2 rest hs
+  ((main2 e hw).1 he).1 lvl h15 h2 rest hs
 
 /-- argument lists: `parseArgumentList`'s loop returns exactly the list the grammar derived and stops at `)` -/
-theorem parse_print_args (a : E) (hw : wf a = true) (ha : isArgs a = true) (hr : relChain a = false) (R : List Tok) :
+theorem parse_print_args (a : E) (hw : wf a = true) (ha : isArgs a = true) (R : List Tok) :
     ∃ n0, ∀ n, n0 ≤ n → parseArgs n (bare a true ++ tk .rparen :: R) = some (a, tk .rparen :: R) :=
-  (main2 a hw hr).2 ha R
+  (main2 a hw).2 ha R
 
 /-- NoIn (§11.8, §12.6.3-4): with allowIn = false the parser NEVER consumes a top-level `in`.  For every expression `e`
     that binds tighter than the relational operators (ShiftExpression and above — in particular every
     LeftHandSideExpression, the left side of `for (… in …)`), the NoIn derivation of `e` followed by `in …` parses to `e`
     and leaves the `in` (and everything after it) untouched. -/
-theorem noin_keeps_top_level_in (e : E) (hw : wf e = true) (he : isExprHead e = true) (hr : relChain e = false)
+theorem noin_keeps_top_level_in (e : E) (hw : wf e = true) (he : isExprHead e = true)
     (hp : 10 ≤ prec e) (rest : List Tok) :
     ∃ n0, ∀ n, n0 ≤ n → parseExpression n false (bare e false ++ tk .kIn :: rest) = some (e, tk .kIn :: rest) := by
-  have rt := ((main2 e hw hr).1 he).1 10 (by omega) (by omega) (tk .kIn :: rest) (show stopB 10 (.p .kIn) false = true by decide)
+  have rt := ((main2 e hw).1 he).1 10 (by omega) (by omega) (tk .kIn :: rest) (show stopB 10 (.p .kIn) false = true by decide)
   rw [pr_bare (by omega) hp] at rt
   have := descendA false 10 0 (by omega) rt (stopA_in rest)
   rw [bare_noin e hp]
   exact this
 
 /-- … whereas with allowIn = true the same text is the relational expression `e in r` (an instance of `parse_print`). -/
-theorem in_consumed_with_allowIn (e r : E) (hwe : wf e = true) (hee : isExprHead e = true) (hre : relChain e = false)
-    (hwr : wf r = true) (her : isExprHead r = true) (hrr : relChain r = false) (hpe : 10 ≤ prec e) (hpr : 10 ≤ prec r) :
+theorem in_consumed_with_allowIn (e r : E) (hwe : wf e = true) (hee : isExprHead e = true)
+    (hwr : wf r = true) (her : isExprHead r = true) (hpe : 10 ≤ prec e) (hpr : 10 ≤ prec r) :
     ∃ n0, ∀ n, n0 ≤ n →
       parseExpression n true (bare e true ++ tk .kIn :: (bare r true ++ [eofTok])) = some (.bin .in_ e r, [eofTok]) := by
   have h := parse_print (.bin .in_ e r) (by simp [wf, hwe, hwr, hee, her]) rfl
-    (by simp only [relChain, hre, hrr, Bool.or_false, Bool.and_eq_false_iff, decide_eq_false_iff_not]; right; omega)
   have hp : print (.bin .in_ e r) = bare e true ++ tk .kIn :: bare r true := by
     show pr 9 true e ++ tk .kIn :: pr 10 true r = _
     rw [pr_bare (by omega) (by omega), pr_bare (by omega) hpr]
@@ -86,14 +66,14 @@ theorem in_consumed_with_allowIn (e r : E) (hwe : wf e = true) (hee : isExprHead
 /-- ASI, restricted production PostfixExpression (§7.9.1, §11.3 "no LineTerminator here"): when a line terminator stands
     between a LeftHandSideExpression and `++`/`--`, the operator is NOT taken as a postfix operator — the parser returns
     the operand and leaves the operator token for the next statement (where it is a prefix operator). -/
-theorem asi_postfix_restricted (e : E) (hw : wf e = true) (he : isExprHead e = true) (hr : relChain e = false)
+theorem asi_postfix_restricted (e : E) (hw : wf e = true) (he : isExprHead e = true)
     (hp : 15 ≤ prec e) (inc : Bool) (rest : List Tok) :
     ∃ n0, ∀ n, n0 ≤ n →
       parsePostfix n (bare e true ++ { k := .p (if inc then .inc else .dec), nl := true } :: rest)
         = some (e, { k := .p (if inc then .inc else .dec), nl := true } :: rest) := by
   have hs : stop 15 ({ k := .p (if inc then .inc else .dec), nl := true } :: rest) := by
     cases inc <;> (show stopB 15 (.p _) true = true) <;> decide
-  obtain ⟨n0, h⟩ := ((main2 e hw hr).1 he).1 15 (by omega) (by omega) _ hs
+  obtain ⟨n0, h⟩ := ((main2 e hw).1 he).1 15 (by omega) (by omega) _ hs
   refine ⟨n0 + 1, fun n hn => ?_⟩
   obtain ⟨m, rfl⟩ : ∃ m, n = m + 1 := ⟨n - 1, by omega⟩
   have h' := h m (by omega)
@@ -103,10 +83,10 @@ theorem asi_postfix_restricted (e : E) (hw : wf e = true) (he : isExprHead e = t
   simp [hdNl]
 
 /-- … whereas without the line terminator the same tokens are the postfix expression (instance of `parse_print_at_full`). -/
-theorem postfix_without_newline (e : E) (hw : wf e = true) (he : isExprHead e = true) (hr : relChain e = false)
+theorem postfix_without_newline (e : E) (hw : wf e = true) (he : isExprHead e = true)
     (ht : simpleTarget e = true) (inc : Bool) :
     ∃ n0, ∀ n, n0 ≤ n → parseExpression n true (print (.post inc e) ++ [eofTok]) = some (.post inc e, [eofTok]) :=
-  parse_print (.post inc e) (by simp [wf, hw, he, ht]) rfl (by simpa [relChain] using hr)
+  parse_print (.post inc e) (by simp [wf, hw, he, ht]) rfl
 
 /-- ASI FLAG: for every token sequence made of "settled" tokens (all token kinds except `throw`, `/`, `/=`, the keywords
     that leave the scanner's field untouched, and reserved-word tokens) and every placement of line terminators, the flags
@@ -130,33 +110,26 @@ example : (Asi.settled (.p .rparen) && Asi.settled (.p .rbrace) && Asi.settled (
 /-- non-vacuity: member/call/new chains mixed with operators -/
 example : let e : E := .asg .assign (.dot (.call (.new_ (.dot (.id "a") "b") (.acons (.num "1") (.acons (.bin .add (.id "x") (.id "y")) .anil))) .anil) "c")
                           (.bin .mul (.new_ (.new_ (.id "F") .noargs) .noargs) (.idx (.call (.id "f") (.acons (.bin .comma (.id "p") (.id "q")) .anil)) (.bin .in_ (.str "'k'") (.id "o"))))
-    wf e = true ∧ isExprHead e = true ∧ relChain e = false := by decide
+    wf e = true ∧ isExprHead e = true := by decide
 
-/-- non-vacuity: a tree mixing every operator class satisfies the hypotheses -/
-example : let e : E := .asg .add (.id "a") (.cond (.bin .lor (.id "b") (.un .typeof (.post true (.id "c"))))
-                          (.bin .comma (.num "1") (.bin .lt (.id "d") (.bin .add (.num "2") (.bin .mul (.id "x") (.id "y"))))) (.un .neg (.id "z")))
-    wf e = true ∧ relChain e = false ∧ noLHS e = true := by decide
+/-- the former deviation `a < b < c` now parses as ES5 says -/
+example : parseExpression 40 true (print (.bin .lt (.bin .lt (.id "a") (.id "b")) (.id "c")))
+    = some (.bin .lt (.bin .lt (.id "a") (.id "b")) (.id "c"), []) := by decide
 
-/-- Kernel-checked witness of the deviation region `relational_chain`: `a < b < c` (ES5: `(a<b)<c`). -/
-def wRel : E := .bin .lt (.bin .lt (.id "a") (.id "b")) (.id "c")
-example : relChain wRel = true := by decide
-example : parseExpression 40 true (print wRel) = some (.bin .lt (.id "a") (.bin .lt (.id "b") (.id "c")), []) := by decide
+/-! ### literal values: the former deviation witnesses now agree with the specification -/
 
-/-! ### literal values: kernel-checked witnesses of the deviation regions (replayed on the real code by the harness) -/
-
-/-- `hex_literal_rounding`: 0x8000000000000401 → 2^63 (otto) vs 2^63+2048 (ES5 §7.8.3) -/
 example : (LitModel.parseNumberLiteral (Str.ofString "0x8000000000000401")).map F64.encode
-        ≠ (LitSpec.numberValue (Str.ofString "0x8000000000000401")).map F64.encode := by decide +kernel
-/-- `octal_literal_overflow`: 01000000000000000000000 is read as decimal 1e21 -/
+        = (LitSpec.numberValue (Str.ofString "0x8000000000000401")).map F64.encode := by decide +kernel
 example : (LitModel.parseNumberLiteral (Str.ofString "01000000000000000000000")).map F64.encode
-        ≠ (LitSpec.numberValue (Str.ofString "01000000000000000000000")).map F64.encode := by decide +kernel
-/-- `surrogate_escape`: "\uD83D\uDE00" -/
-example : LitModel.parseStringLiteral [92,117,68,56,51,68,92,117,68,69,48,48] = some [0xEF,0xBF,0xBD,0xEF,0xBF,0xBD]
+        = (LitSpec.numberValue (Str.ofString "01000000000000000000000")).map F64.encode := by decide +kernel
+example : LitModel.parseStringLiteral [92,117,68,56,51,68,92,117,68,69,48,48] = some [0xF0,0x9F,0x98,0x80]
         ∧ (LitSpec.sv 20 [92,117,68,56,51,68,92,117,68,69,48,48]).map Str.bytesOfUnits = some [0xF0,0x9F,0x98,0x80] := by decide +kernel
-/-- `octal_escape_4to7`: "\477" -/
-example : LitModel.parseStringLiteral [92,52,55,55] = some [0xC4,0xBF] ∧ LitSpec.sv 10 [92,52,55,55] = some [39,55] := by decide +kernel
-/-- `line_continuation_ls_ps`: a \ U+2028 b -/
-example : LitModel.parseStringLiteral [97,92,0xE2,0x80,0xA8,98] = some [97,0xE2,0x80,0xA8,98] ∧ LitSpec.sv 10 [97,92,0x2028,98] = some [97,98] := by decide +kernel
+example : LitModel.parseStringLiteral [92,52,55,55] = some [39,55] ∧ LitSpec.sv 10 [92,52,55,55] = some [39,55] := by decide +kernel
+example : LitModel.parseStringLiteral [97,92,0xE2,0x80,0xA8,98] = some [97,98] ∧ LitSpec.sv 10 [97,92,0x2028,98] = some [97,98] := by decide +kernel
+
+/-- witness of the remaining region `surrogate_pair_split`: \\uD83D \\<LF> \\uDE00 -/
+example : LitModel.parseStringLiteral [92,117,68,56,51,68,92,10,92,117,68,69,48,48] = some [0xEF,0xBF,0xBD,0xEF,0xBF,0xBD]
+        ∧ (LitSpec.sv 20 [92,117,68,56,51,68,92,10,92,117,68,69,48,48]).map Str.bytesOfUnits = some [0xF0,0x9F,0x98,0x80] := by decide +kernel
 
 /-- strings without a backslash are returned unchanged (lexer.go:708 fast path) — and that is their SV when they are
     ASCII without line terminators -/
@@ -192,22 +165,18 @@ theorem numlit_decimal_int (ds : List Nat) (hne : ds ≠ []) (hd : ∀ c ∈ ds,
       LitSpec.mv ds = some (LitSpec.digitsVal 10 ds, 1) :=
   ⟨LitThm.numlit_decimal_int ds hne hd h0 hv, LitThm.mv_decimal_int ds hne hd h0⟩
 
-/-- STRING LITERAL VALUE: for every ASCII literal body outside `octal_escape_4to7` to which ES5 §7.8.4 / B.1.2 assigns a
-    string value `us` (all escape forms and line continuations, any length), parseStringLiteral returns the UTF-8 encoding
-    of exactly those code points.  Proof: `LitLemmas.core`, induction on the text with the model's buffer generalised. -/
-theorem strlit_value_ascii (lit us : List Nat) (hasc : ∀ c ∈ lit, c < 128) (hoct : LitThm.noOct47 lit = true)
-    (hsv : LitSpec.sv (lit.length + 1) lit = some us) :
-    LitModel.parseStringLiteral lit = some (Str.encodeRunes us) :=
-  LitThm.strlit_value_ascii lit us hasc hoct hsv
-
-/-- … which, outside `surrogate_escape`, is the Go string of the specified value (the token the harness compares). -/
-theorem strlit_value_ascii_units (lit us : List Nat) (hasc : ∀ c ∈ lit, c < 128) (hoct : LitThm.noOct47 lit = true)
+/-- STRING LITERAL VALUE: for every ASCII literal body to which ES5 §7.8.4 / B.1.2 assigns a string value `us` without
+    surrogate code units (all escape forms incl. every legacy octal form, and the line continuations, any length),
+    parseStringLiteral returns the Go string of exactly that value.  Proof: `LitLemmas.core`, induction on the text with the
+    model's buffer generalised.  (Escaped surrogate PAIRS are combined by the code and agree with the specification on every
+    generated input, but are outside this theorem.) -/
+theorem strlit_value_ascii_units (lit us : List Nat) (hasc : ∀ c ∈ lit, c < 128)
     (hsv : LitSpec.sv (lit.length + 1) lit = some us) (hsur : ∀ u ∈ us, LitThm.OKU u) :
     LitModel.parseStringLiteral lit = some (Str.bytesOfUnits us) :=
-  LitThm.strlit_value_ascii_units lit us hasc hoct hsv hsur
+  LitThm.strlit_value_ascii_units lit us hasc hsv hsur
 
 /-- non-vacuity: `a\n\x41\u00e9\101\0\<LF>\q` satisfies the hypotheses -/
 example : let lit := Str.ofString "a\\n\\x41\\u00e9\\101\\0\\\nz\\q"
-    (lit.all (· < 128)) = true ∧ LitThm.noOct47 lit = true ∧ (LitSpec.sv (lit.length + 1) lit).isSome = true := by decide +kernel
+    (lit.all (· < 128)) = true ∧ (LitSpec.sv (lit.length + 1) lit).isSome = true := by decide +kernel
 
 end OttoVerif.C03.Thm
